@@ -6,6 +6,9 @@ theorems are about.
 import Prs.Generated.FormulasRichness
 import Prs.Proofs.StatsSets
 import Mathlib.Tactic.Ring
+import Mathlib.Tactic.Push
+import Mathlib.Data.Nat.Cast.Basic
+import Mathlib.Data.Rat.Defs
 import Mathlib.Tactic.FieldSimp
 
 set_option linter.unnecessarySeqFocus false
@@ -68,8 +71,18 @@ theorem gen_inter_card (a b : List β) :
 theorem gen_union_card (a b : List β) : (dedup (dedup a ++ dedup b)).length = unionCard a b := by
   rw [unionCard_eq, dedup_length, List.toFinset_append, toFinset_dedup, toFinset_dedup]
 
+/-- inclusion–exclusion, in the shape a source that computes |A ∪ B| as |A| + |B| − |A ∩ B| translates to -/
+theorem gen_union_incl_excl (a b : List β) :
+    ((((dedup a).length + (dedup b).length : ℕ) : ℚ) - ((interCard a b : ℕ) : ℚ)) = ((unionCard a b : ℕ) : ℚ) := by
+  have h : unionCard a b + interCard a b = (dedup a).length + (dedup b).length := by
+    rw [unionCard_eq, interCard_eq, dedup_length, dedup_length]
+    exact Finset.card_union_add_card_inter _ _
+  rw [← h]
+  push_cast
+  ring
+
 theorem gen_jaccard_eq (a b : List β) : Generated.jaccard_index a b = Prs.jaccard a b := by
-  simp only [Generated.jaccard_index, Prs.jaccard, gen_inter_card, gen_union_card]
+  simp only [Generated.jaccard_index, Prs.jaccard, gen_inter_card, gen_union_card, gen_union_incl_excl]
 
 theorem gen_overlap_eq (a b : List β) : Generated.overlap a b = Prs.overlapCount a b := by
   simp only [Generated.overlap, Prs.overlapCount, gen_inter_card]
